@@ -73,7 +73,8 @@ class EscapeStr(Contract):
         s, rt = M.sym_str(a.string), M.sym_str(r)
         if a.syntax in (Syntax.output, Syntax.input):
             return {'ninja_reads_path_back': literal_value(nj_path, rt, s)}
-        return {'ninja_reads_value_back': literal_value(nj_value, rt, s)}
+        return {'ninja_reads_value_back': literal_value(nj_value, rt, s),
+                'text_is_dollar_doubling': rt == FR.dol(s)}
 
     def result_value(self, I, a):
         return fresh_sym('esc', 'str')
@@ -83,6 +84,9 @@ class EscapeStr(Contract):
         if fo is None:
             return p.qed()
         fold, w = fo
+        if name == 'text_is_dollar_doubling':
+            p.use(FR.same_cmap_lemma(fold, FR.dollar2, 'ninja').inst(u=w))
+            return p.qed()
         lem = escape_lemma(fold, 'path' if case in ('output', 'input') else 'value')
         p.need(lem)
         p.use(lem.inst(u=w))
